@@ -17,6 +17,9 @@ static void vm_clock_add(unsigned long long s, unsigned long long ns) {
 
 /* returns 1 when interrupted (rem filled), 0 when the whole request was slept */
 static int vm_sleep(const struct timespec *req, struct timespec *rem) {
+#ifdef VM_SLEEP_HOOK
+  vm_sleep_hook(0);                                        /* another thread may run a whole sleep of its own before this one starts */
+#endif
   if (vm_sleep_calls < 1000) vm_sleep_calls++;
   VASSERT(req != NULL, "sleep request present");
   VASSERT(req->tv_nsec >= 0 && req->tv_nsec < NS, "sleep request has 0 <= tv_nsec < 10^9");
@@ -39,6 +42,9 @@ static int vm_sleep(const struct timespec *req, struct timespec *rem) {
     else vm_clock_add((unsigned long long) req->tv_sec - (unsigned long long) rs - 1u, (unsigned long long) req->tv_nsec + (unsigned long long) NS - (unsigned long long) rn);
     if (rem != NULL) { rem->tv_sec = (time_t) rs; rem->tv_nsec = rn; }
     vm_sleep_last_rem.tv_sec = (time_t) rs; vm_sleep_last_rem.tv_nsec = rn; vm_sleep_pending_rem = 1;
+#ifdef VM_SLEEP_HOOK
+    vm_sleep_hook(1);                                      /* ... or between the kernel writing the remainder and the caller reading it */
+#endif
     return 1;
   }
   vm_clock_add((unsigned long long) req->tv_sec, (unsigned long long) req->tv_nsec);
